@@ -678,3 +678,179 @@ pub fn c04_stress(idx: usize, seed: u64, ops_per_thread: usize) -> ScenarioResul
         .count("stress_events_replayed", events_seen.load(Ordering::SeqCst))
         .count("stress_subscribers_lagged", (lagged.load(Ordering::SeqCst) > 0) as u64)
 }
+
+// ------------------------------------------------------------------------------------------------
+// C04/C05: two operations racing on two threads must be equivalent to one of their two orders
+
+#[derive(Clone, Copy, Debug, PartialEq, Eq)]
+enum ROp {
+    Add(usize),
+    Exit(usize),
+    Disconnect,
+}
+
+/// sequential reference: state = index of the registered connection (None = absent)
+fn ref_apply(own: &PeerId, peer: &PeerId, inbound: &[bool], st: &mut Option<usize>, op: ROp, events: &mut Vec<char>) -> Option<bool> {
+    match op {
+        ROp::Add(c) => match *st {
+            None => {
+                *st = Some(c);
+                events.push('N');
+                Some(true)
+            }
+            Some(e) => {
+                if ref_keep_new(own, peer, inbound[e], inbound[c]) {
+                    *st = Some(c);
+                    events.push('L');
+                    events.push('N');
+                    Some(true)
+                } else {
+                    Some(false)
+                }
+            }
+        },
+        ROp::Exit(c) => {
+            if *st == Some(c) {
+                *st = None;
+                events.push('L');
+            }
+            None
+        }
+        ROp::Disconnect => {
+            if st.is_some() {
+                *st = None;
+                events.push('L');
+            }
+            None
+        }
+    }
+}
+
+pub fn c04_race(idx: usize, seed: u64, rounds: usize) -> ScenarioResult {
+    let mut rng = StdRng::seed_from_u64(seed ^ 0xc04f);
+    let rt = rt();
+    let pool: Option<(RawEndpoint, RawEndpoint, Vec<Conn>)> = rt.block_on(async {
+        let mut k = [0u8; 32];
+        rng.fill(&mut k);
+        let own = endpoint(k);
+        rng.fill(&mut k);
+        let remote = endpoint(k);
+        let mut conns = Vec::new();
+        for j in 0..4 {
+            let pair = if j % 2 == 0 { connect(&remote, &own).await.map(|(d, l)| (l, d)) } else { connect(&own, &remote).await };
+            conns.push(pair?.0);
+        }
+        Some((own, remote, conns))
+    });
+    let Some((own, remote, conns)) = pool else { return ScenarioResult::inconclusive("handshake failed") };
+    let own_id = own.peer_id();
+    let peer = remote.peer_id();
+    let inbound: Vec<bool> = conns.iter().map(|c| is_inbound(c.origin())).collect();
+    let ap = ActivePeersHandle::new(1 << 12);
+    let conns = Arc::new(conns);
+    let mut problems: Vec<String> = Vec::new();
+    let mut outcomes: BTreeSet<String> = BTreeSet::new();
+    let mut both_orders_distinguishable = 0u64;
+    // two persistent worker threads, released together by a barrier each round
+    let barrier = Arc::new(std::sync::Barrier::new(3));
+    let slots: Arc<[Mutex<Option<ROp>>; 2]> = Arc::new([Mutex::new(None), Mutex::new(None)]);
+    let results: Arc<[Mutex<Option<Option<bool>>>; 2]> = Arc::new([Mutex::new(None), Mutex::new(None)]);
+    let quit = Arc::new(AtomicBool::new(false));
+    let mut workers = Vec::new();
+    for wi in 0..2 {
+        let (barrier, slots, results, quit, ap, conns) = (barrier.clone(), slots.clone(), results.clone(), quit.clone(), ap.clone(), conns.clone());
+        workers.push(std::thread::spawn(move || loop {
+            barrier.wait(); // round start
+            if quit.load(Ordering::SeqCst) {
+                return;
+            }
+            let op = slots[wi].lock().unwrap().take().unwrap();
+            let r = match op {
+                ROp::Add(c) => Some(ap.add(&own_id, &conns[c])),
+                ROp::Exit(c) => {
+                    ap.remove_with_stable_id(peer, conns[c].stable_id(), DisconnectReason::ConnectionClosed);
+                    None
+                }
+                ROp::Disconnect => {
+                    ap.remove(&peer, DisconnectReason::Requested);
+                    None
+                }
+            };
+            *results[wi].lock().unwrap() = Some(r);
+            barrier.wait(); // round end
+        }));
+    }
+    for round in 0..rounds {
+        // initial state
+        ap.remove(&peer, DisconnectReason::Requested);
+        let init: Option<usize> = if rng.gen_bool(0.8) { Some(rng.gen_range(0..4)) } else { None };
+        if let Some(c) = init {
+            let _ = ap.add(&own_id, &conns[c]);
+        }
+        let (mut rx, _) = ap.subscribe();
+        let pick = |rng: &mut StdRng| match rng.gen_range(0..10) {
+            0..=4 => ROp::Add(rng.gen_range(0..4)),
+            5..=8 => ROp::Exit(rng.gen_range(0..4)),
+            _ => ROp::Disconnect,
+        };
+        let (mut o1, mut o2) = (pick(&mut rng), pick(&mut rng));
+        // the interesting pair gets extra weight: a replacement racing the exit of the replaced one
+        if let (Some(c), true) = (init, round % 3 == 0) {
+            let newer = (c + 2) % 4; // same direction as c: always replaces
+            o1 = ROp::Add(newer);
+            o2 = ROp::Exit(c);
+        }
+        *slots[0].lock().unwrap() = Some(o1);
+        *slots[1].lock().unwrap() = Some(o2);
+        barrier.wait();
+        barrier.wait();
+        let r1 = results[0].lock().unwrap().take().unwrap();
+        let r2 = results[1].lock().unwrap().take().unwrap();
+        let final_entry: Option<usize> = ap.get_stable_id(&peer).and_then(|sid| conns.iter().position(|c| c.stable_id() == sid));
+        let mut evs = String::new();
+        while let Ok(e) = rx.try_recv() {
+            evs.push(match e { PeerEvent::NewPeer(_) => 'N', PeerEvent::LostPeer(..) => 'L' });
+        }
+        // the two sequential orders
+        let mut admissible = Vec::new();
+        for (first, second, swap) in [(o1, o2, false), (o2, o1, true)] {
+            let mut st = init;
+            let mut ev = Vec::new();
+            let ra = ref_apply(&own_id, &peer, &inbound, &mut st, first, &mut ev);
+            let rb = ref_apply(&own_id, &peer, &inbound, &mut st, second, &mut ev);
+            let (x1, x2) = if swap { (rb, ra) } else { (ra, rb) };
+            admissible.push((st, x1, x2, ev.iter().collect::<String>()));
+        }
+        if admissible[0] != admissible[1] {
+            both_orders_distinguishable += 1;
+        }
+        let got = (final_entry, r1, r2, evs.clone());
+        if !admissible.contains(&got) {
+            problems.push(format!(
+                "round {round}: from state {init:?}, {o1:?} and {o2:?} ran concurrently and produced (entry {:?}, results {:?}/{:?}, events {evs:?}); neither order explains it: {:?}",
+                final_entry, r1, r2, admissible
+            ));
+            break;
+        }
+        outcomes.insert(format!("{:?}|{:?}|{}", o1, o2, admissible.iter().position(|a| *a == got).unwrap()));
+    }
+    quit.store(true, Ordering::SeqCst);
+    barrier.wait();
+    for w in workers {
+        let _ = w.join();
+    }
+    rt.block_on(async {
+        own.close();
+        remote.close();
+    });
+    drop(rt);
+    let _ = idx;
+    let r = if problems.is_empty() {
+        ScenarioResult::held("race pairs").with_sample(json!({"kind": "two operations racing on two threads vs. their two sequential orders", "rounds": rounds, "distinct (op,op,order) outcomes": outcomes.len()}))
+    } else {
+        ScenarioResult::violated(problems[0].clone(), json!({"seed": seed, "problems": problems}))
+    };
+    r.count("race_rounds", rounds as u64)
+        .count("race_rounds_with_distinguishable_orders", both_orders_distinguishable)
+        .count("race_distinct_outcomes", outcomes.len() as u64)
+}
